@@ -1259,6 +1259,33 @@ fn run_sweep_other_key(focus: &'static str, seed: u64, index: u64) -> CaseOut {
             }
         }
     }
+    // variant 3, epilogue: let even the extended time-to-live pass and the sweeps go round; whatever became of K, reads and puts must agree:
+    // a key that reads as absent can be put (never KeyAlreadyExists), a readable key cannot
+    if variant == 3 && !rt::aborted() {
+        sut.advance(1001 * NS);
+        let mut settled = sut.settle().is_ok();
+        for _ in 0..(shards + 2) { if !settled { break; } sut.advance(NS); settled = sut.settle().is_ok(); }
+        if settled {
+            let mut prober = Client::new(7);
+            for key in [1u64, 2] {
+                let readable = sut.cache.get(&key).is_some();
+                let value = prober.token(key);
+                let at = prober.write(&sut.cache, WriteOp::PutW { key, value, weight: 30 });
+                prober.settle_all(&marks);
+                let status = match &prober.log[at].outcome { Outcome::Write { status: Some(Waited::Ready(s)), .. } => Some(*s), _ => None };
+                counts.inc("puts_after_a_sweep_race_and_full_cycles_judged");
+                let exists = status == Some(CommandStatus::Rejected(RejectionReason::KeyAlreadyExists));
+                if !readable && exists {
+                    findings.push(Finding { props: vec!["C07", "C10"], signature: "C07/key-already-exists-for-unreadable-key/after-sweep-race".into(),
+                        detail: format!("key {} reads as absent after every time-to-live has passed and the sweeps went round, yet a put is refused with KeyAlreadyExists: the entry can never be read, swept or replaced", key),
+                        witness: witness(&client.log.iter().collect::<Vec<_>>()), inconclusive: false });
+                } else if readable && !exists && status.is_some() {
+                    findings.push(Finding { props: vec!["C07"], signature: "C07/put-on-readable-key-not-rejected/after-sweep-race".into(),
+                        detail: format!("put of readable key {} resolved to {:?}", key, status.map(|s| status_name(&s))), witness: witness(&client.log.iter().collect::<Vec<_>>()), inconclusive: false });
+                }
+            }
+        }
+    }
     let signature = fnv_step(fnv_step(0x50C, index % 48), variant);
     let sample = case.clone().with("operations", J::Arr(logs.iter().take(10).map(|r| r.to_json()).collect()));
     if let Err(waited) = sut.finish_or_leak() { if findings.is_empty() { push_stuck(&mut findings, "shutdown after a sweep race", waited, &case); } }
